@@ -2,6 +2,7 @@ import Rtsp.Generated.Facts.Life
 import Rtsp.Proofs.Life.MonitorProps
 import Rtsp.Proofs.Life.Fair
 import Rtsp.Proofs.Life.Client
+import Rtsp.Proofs.Life.SessClose
 /-
 # C13 — Close is complete; life-cycle callbacks are balanced and ordered
 
@@ -199,6 +200,24 @@ theorem shutdown_steps_persist (st st' : State) (a b : Action) (e : Option Event
     (hc : st.cancelled = true) (hsrv : st.srvRunning = false) (h : step st b = some (st', e))
     (hr : rank st' = rank st) (ha : a.own = true) (hen : enabled st a) : enabled st' a :=
   (enabled_own_iff ha).mpr (persist hi hc hsrv h hr ha ((enabled_own_iff ha).mp hen))
+
+/-- **`ServerSession.Close()` / `ServerStream.Close()` terminate** (the server itself is not closing): from
+every reachable state in which session `s` exists and has been cancelled — `ServerStream.Close()` cancels each
+of its readers, `ServerSession.Close()` one session — a finite path of own steps of `s` and of its
+connections (at most `rank st` long) leads to a state in which `s` has delivered `OnSessionClose`. -/
+theorem session_close_terminates (as : List Action) (st : State) (tr : List Event) (s : Nat)
+    (h : run Life.init as = some (st, tr)) (hp : (st.sess s).phase ≠ .absent)
+    (hc : (st.sess s).cancelled = true) :
+    ∃ bs st' tr', (∀ a, a ∈ bs → a.own = true) ∧ bs.length ≤ rank st ∧ run st bs = some (st', tr') ∧
+      (st'.sess s).phase = .closed := by
+  obtain ⟨hi, hw⟩ := invariants_reachable as st tr h
+  exact sess_close_path (rank st) hi hw hp hc (Nat.le_refl _)
+
+/-- non-vacuity: a playing session is cancelled (stream closed) while the server keeps running -/
+example : ((run Life.init [.accept, .connOpenCb 0, .createSess 0, .sessOpenCb 0, .sreq 0 0 .playTcp, .cancelSess 0,
+    .sessExit 0, .sessCancelConn 0 0, .connExit 0, .readerExit 0, .connJoin 0, .connCloseCb 0, .sessCloseCb 0]).map
+      fun r => ((r.1.sess 0).phase, r.1.srvRunning, r.2)) =
+    some (.closed, true, [.connOpen 0, .sessionOpen 0 0, .sreq 0 0, .connClose 0, .sessionClose 0]) := by decide
 
 /-! ## The client -/
 
